@@ -39,7 +39,7 @@ EXPLANATION = ("body VCs: fragment extraction (module: stretch between the cuts;
 def obligations(ctx):
     obs = ctx.verify(FUNCTIONS)
     obs = [o for o in obs if "citation-qualifiers" not in o.name and "reference-list" not in o.name]
-    return obs + lemmas(ctx) + literal(ctx)
+    return obs + ctx.part(lemmas) + ctx.part(literal)
 
 
 def lemmas(ctx):
